@@ -4193,8 +4193,11 @@ coap_dispatch(coap_context_t *context, coap_session_t *session,
     goto cleanup;
 
   case COAP_MESSAGE_NON:
-    /* find transaction in sendqueue in case large response */
-    coap_remove_from_queue(&context->sendqueue, session, pdu->mid, &sent);
+    /*
+     * The message id of a NON is chosen by the peer and is unrelated to the
+     * ids of our own Confirmables, so it must not be looked up in sendqueue
+     * (a request answered by a NON is found by its token in handle_response()).
+     */
     /* check for unknown critical options */
     if (coap_option_check_critical(session, pdu, &opt_filter) == 0) {
       packet_is_bad = 1;
